@@ -1908,9 +1908,8 @@ func (p *Parser) hasValidIdent() bool {
 		if p.val[end-1] == '+' && p.lang.in(langBashLike|LangMirBSDKorn|LangZsh) {
 			end-- // a+=x
 		}
-		if ValidName(p.val[:end]) {
-			return true
-		}
+		// foo=bar or foo+=bar; an invalid name, like in "+=[", is a plain word
+		return ValidName(p.val[:end])
 	} else if !ValidName(p.val) {
 		return false // *[i]=x
 	}
